@@ -234,18 +234,15 @@ def countLoop (d k : Nat) : Nat → Nat → Nat → Res (Nat × Nat)
     else .ok (value, digits)
 
 /-- `digit_count!(@naive T, radix, x)` -/
-def naiveCount (bits radix value : Nat) : Res Nat := do
-  let radix := radix % 2 ^ 32
-  let radix2 := radix * radix % 2 ^ 32
-  let radix4 := radix2 * radix2 % 2 ^ 32
-  let (value, digits) ←
-    if bits ≥ 32 ∨ radix4 < maxAsU32 bits then countLoop (radix4 % 2 ^ bits) 4 loopFuel value 1
-    else pure (value, 1)
-  let (value, digits) ←
-    if bits ≥ 16 ∨ radix2 < maxAsU32 bits then countLoop (radix2 % 2 ^ bits) 2 loopFuel value digits
-    else pure (value, digits)
-  let (_, digits) ← countLoop (radix % 2 ^ bits) 1 loopFuel value digits
-  pure digits
+def naiveCount (bits radix value : Nat) : Res Nat :=
+  -- radix = `$radix as u32`; radix2 = radix * radix; radix4 = radix2 * radix2 (u32); `from_u32` = `% 2^bits`
+  ((if bits ≥ 32 ∨ (radix % 2 ^ 32 * (radix % 2 ^ 32) % 2 ^ 32) * (radix % 2 ^ 32 * (radix % 2 ^ 32) % 2 ^ 32) % 2 ^ 32 < maxAsU32 bits then
+      countLoop ((radix % 2 ^ 32 * (radix % 2 ^ 32) % 2 ^ 32) * (radix % 2 ^ 32 * (radix % 2 ^ 32) % 2 ^ 32) % 2 ^ 32 % 2 ^ bits) 4 loopFuel value 1
+    else Res.ok (value, 1)) >>= fun x =>
+   (if bits ≥ 16 ∨ radix % 2 ^ 32 * (radix % 2 ^ 32) % 2 ^ 32 < maxAsU32 bits then
+      countLoop (radix % 2 ^ 32 * (radix % 2 ^ 32) % 2 ^ 32 % 2 ^ bits) 2 loopFuel x.1 x.2
+    else Res.ok x) >>= fun y =>
+   countLoop (radix % 2 ^ 32 % 2 ^ bits) 1 loopFuel y.1 y.2 >>= fun z => Res.ok z.2)
 
 /-- `fast_log10` -/
 def fastLog10 (bits x : Nat) : Nat := fastLog2 bits x * 1233 / 2 ^ 12
